@@ -38,6 +38,12 @@ def random_suite(tier, seed):
         inputs = T.gen_suite(rng, 48, nmax=24)
     else:
         inputs = T.gen_suite(rng, 480, nmax=60)
+    # boxes far from the origin (own random stream, so that the inputs above do not depend on it)
+    rng2 = C.Rng(seed * 6007 + 101)
+    far = T.gen_suite(rng2, 6 if tier == "quick" else 60, families=["faroffset"], nmax=20 if tier == "quick" else 50, dims=(3, 2, 3, 1))
+    for inp in far:
+        inp["id"] = len(inputs)
+        inputs.append(inp)
     # a few partial constructions
     extra = []
     for inp in inputs[::4]:
@@ -210,7 +216,17 @@ def mismatch_class(rec):
     for k in ("K2-cluster", "K3-illscaled"):
         if k in cls:
             return ":" + k
+    if k5_history(rec.get("impl_raw")):
+        return ":K5-dependent-planes"
     return ""
+
+
+def k5_history(o):
+    """recorded finding K5, decided from the construction history (trace hook): a vertex whose three planes have linearly
+    dependent normals (|triple product of the unit normals| < 1e-9) took part in a clip decision.  Its location is
+    meaningless, and so is everything derived from it afterwards"""
+    md = ((o or {}).get("trace") or {}).get("min_det")
+    return md is not None and md < 1e-9
 
 
 def walls_of_generator(rec, gi):
